@@ -288,7 +288,123 @@ def trace_validate(module, cfg, cases, scratch, *, chunks=None, key="cases", ext
         except OSError:
             pass
     tot["verdicts"] = verdicts
+    st = _binding_selftest(module, cfg, cases, verdicts, scratch, key, extra_doc, timeout, xmx, env)
+    if st:
+        tot["selftest"] = st
     return tot
+
+
+# ----------------------------------------------------------------------------- binding self-test
+# "Corrupt one recorded field and show the trace is rejected": once per (trace spec, cfg) and run, a few
+# cases the trace spec accepted are copied, ONE leaf of the recorded JSON is altered in each copy, and every
+# copy is validated in its own TLC process.  A copy that is still accepted means that leaf is not
+# constrained by the spec (an input the other fields remain consistent with, or informative metadata); a
+# trace spec that accepts every corrupted copy binds nothing.  The result is informative (evidence), it
+# never changes the verdict of the check.
+
+_SELFTEST_DONE = set()
+_SELFTEST_SKIP = ("id", "recipe", "tid", "sid", "dom", "what", "via", "fam", "colseed", "feats", "layout", "name", "file")
+
+
+def _leaves(v, path=()):
+    if isinstance(v, dict):
+        for k in sorted(v):
+            if k in _SELFTEST_SKIP or k.startswith("_"):
+                continue
+            yield from _leaves(v[k], path + (k,))
+    elif isinstance(v, list):
+        if v and not isinstance(v[0], (dict, list)):
+            yield path + ("#drop",)
+        for i, x in enumerate(v):
+            yield from _leaves(x, path + (i,))
+    elif isinstance(v, bool):
+        yield path
+    elif isinstance(v, int) or isinstance(v, str):
+        yield path
+
+
+def _mutate(case, path):
+    import copy
+    c = copy.deepcopy(case)
+    ref = c
+    for k in path[:-1]:
+        ref = ref[k]
+    last = path[-1]
+    if last == "#drop":
+        old = list(ref)
+        ref.pop()
+        return c, f"{list(path[:-1])}: dropped last element {old[-1]!r}"
+    old = ref[last]
+    if isinstance(old, bool):
+        ref[last] = not old
+    elif isinstance(old, int):
+        ref[last] = old + 1
+    elif len(old) == 1:
+        ref[last] = "." if old != "." else "("
+    else:
+        ref[last] = old + "x"
+    return c, f"{list(path)}: {old!r} -> {ref[last]!r}"
+
+
+def _binding_selftest(module, cfg, cases, verdicts, scratch, key, extra_doc, timeout, xmx, env, k=12):
+    if (module, cfg) in _SELFTEST_DONE or os.environ.get("VERIF_NO_SELFTEST"):
+        return None
+    _SELFTEST_DONE.add((module, cfg))
+    import random
+    rnd = random.Random(seed() * 7919 + 17)
+    bad = {v[0] for v in verdicts if len(v) >= 2}
+    okc = [c for c in cases if c.get("id") not in bad]
+    if not okc:
+        return None
+    picks = []
+    for c in rnd.sample(okc, min(k, len(okc))):
+        lv = list(_leaves(c))
+        if lv:
+            picks.append(_mutate(c, rnd.choice(lv)))
+    if not picks:
+        return None
+    files = []
+    for i, (c, _) in enumerate(picks):
+        f = scratch.path(f"selftest-{module}-{i}-{time.time_ns()}.json")
+        doc = {key: [c]}
+        if extra_doc:
+            doc.update(extra_doc)
+        with open(f, "w") as fh:
+            json.dump(doc, fh)
+        files.append(f)
+
+    def run(i):
+        e = dict(env or {})
+        e["TRACE_FILE"] = files[i]
+        try:
+            return tlc(module, cfg, workers=1, env=e, scratch=scratch, timeout=min(timeout, 600), xmx=xmx, tag=f"st{i}")
+        except MachineryError:
+            return {"out": "", "ok": False}
+
+    with ThreadPoolExecutor(max_workers=NCPU) as ex:
+        results = list(ex.map(run, range(len(picks))))
+    st = {"spec": module, "cfg": cfg, "corrupted_copies": len(picks), "rejected": 0, "aborted_by_tlc": 0,
+          "still_accepted": 0, "examples": []}
+    for (c, what), r in zip(picks, results):
+        v, s = parse_verdicts(r["out"])
+        if not r["ok"] or s is None:
+            st["aborted_by_tlc"] += 1
+            out = "aborted"
+        elif any(len(x) >= 2 and x[1] in ("fail", "deviation") for x in v):
+            st["rejected"] += 1
+            x = [x for x in v if len(x) >= 2 and x[1] in ("fail", "deviation")][0]
+            out = f"{x[1]}:{x[2] if len(x) > 2 else ''}"
+        else:
+            st["still_accepted"] += 1
+            out = "accepted"
+        if len(st["examples"]) < 6:
+            st["examples"].append({"case": str(c.get("id")), "corruption": what[:160], "verdict": out})
+    for f in files:
+        try:
+            os.remove(f)
+        except OSError:
+            pass
+    return st
 
 
 # ----------------------------------------------------------------------------- findings
@@ -355,6 +471,8 @@ class Report:
     def add_trace(self, res, cases_by_id, what, *, id_of=lambda c: c["id"]):
         self.cov["trace_runs"].append({"what": what, "cases": res["n"], "ok": res["ok"],
                                        "deviation": res["dev"], "fail": res["fail"]})
+        if res.get("selftest"):
+            self.cov.setdefault("binding_selftest", []).append(res["selftest"])
         self.cov["traces_validated_against_impl"] += res["n"]
         self.cov["evaluations"] += res["n"]
         self.cov["states"] += res["states"]
